@@ -30,6 +30,10 @@ var effectClass = map[string]string{
 	"os.Getenv": "env", "os.Environ": "env", "os.LookupEnv": "env",
 }
 
+// existenceProbe: calls whose result depends on which files exist (as opposed to path arithmetic such as filepath.Abs)
+var existenceProbe = map[string]bool{"os.Stat": true, "os.Lstat": true, "path/filepath.Glob": true, "path/filepath.EvalSymlinks": true,
+	"os.Readlink": true, "path/filepath.Walk": true, "path/filepath.WalkDir": true}
+
 type effSite struct {
 	class string
 	name  string
@@ -157,6 +161,29 @@ func effectsPass(w *World, id string) []*OwnOb {
 				short := s.name[strings.LastIndex(s.name, "/")+1:]
 				add(fmt.Sprintf("%s.effects[%s %s]", fi.Key, s.class, short), "effects", declared(fi, s.class, s.name), posStr(w, s.pos),
 					fmt.Sprintf("%s calls %s (%s) but its contract does not allow it: file content may only be read through the parser's root handle in loadFile", fi.Name, s.name, s.class))
+			}
+		}
+		// E1b: existence probes that do not go through the root handle (they see files outside the root: finding K3) are
+		// only the ones the contracts name; a new one is reported
+		for _, fi := range lib {
+			if fi.PkgDir != "." {
+				continue
+			}
+			for _, s := range directEffects(w, fi) {
+				if s.class != "probe" || !existenceProbe[s.name] {
+					continue
+				}
+				short := s.name[strings.LastIndex(s.name, "/")+1:]
+				named := false
+				if fi.Contract != nil {
+					for _, e := range fi.Contract.Effects {
+						if e == "probe:"+short {
+							named = true
+						}
+					}
+				}
+				add(fmt.Sprintf("%s.effects[probe %s]", fi.Key, short), "effects", named, posStr(w, s.pos),
+					fmt.Sprintf("%s calls %s, which looks at the file system without going through the parser's root handle, and its contract does not name it: whether files outside the root exist can change the result", fi.Name, s.name))
 			}
 		}
 		// the allowed sites must exist (vacuity) and have the required data flow
@@ -896,12 +923,17 @@ func checkSortedMap(w *World) []*OwnOb {
 	}
 	ok := false
 	why := "sortedMap must be `return func(yield) { for _, k := range slices.Sorted(maps.Keys(m)) { if !yield(k, m[k]) { return } } }`"
-	if len(fi.Decl.Body.List) == 1 {
+	m := ""
+	if ps := fi.Decl.Type.Params.List; len(ps) == 1 && len(ps[0].Names) == 1 {
+		m = ps[0].Names[0].Name
+	}
+	if len(fi.Decl.Body.List) == 1 && m != "" {
 		if rs, isRet := fi.Decl.Body.List[0].(*ast.ReturnStmt); isRet && len(rs.Results) == 1 {
-			if lit, isLit := rs.Results[0].(*ast.FuncLit); isLit && len(lit.Body.List) == 1 {
-				if rg, isRange := lit.Body.List[0].(*ast.RangeStmt); isRange && rg.Value != nil && exprString(rg.X) == "slices.Sorted(maps.Keys(m))" && len(rg.Body.List) == 1 {
+			if lit, isLit := rs.Results[0].(*ast.FuncLit); isLit && len(lit.Body.List) == 1 && len(lit.Type.Params.List) == 1 && len(lit.Type.Params.List[0].Names) == 1 {
+				yield := lit.Type.Params.List[0].Names[0].Name
+				if rg, isRange := lit.Body.List[0].(*ast.RangeStmt); isRange && rg.Value != nil && exprString(rg.X) == "slices.Sorted(maps.Keys("+m+"))" && len(rg.Body.List) == 1 {
 					k := exprString(rg.Value)
-					if ifs, isIf := rg.Body.List[0].(*ast.IfStmt); isIf && ifs.Init == nil && ifs.Else == nil && exprString(ifs.Cond) == "!yield("+k+", m["+k+"])" && len(ifs.Body.List) == 1 {
+					if ifs, isIf := rg.Body.List[0].(*ast.IfStmt); isIf && ifs.Init == nil && ifs.Else == nil && exprString(ifs.Cond) == "!"+yield+"("+k+", "+m+"["+k+"])" && len(ifs.Body.List) == 1 {
 						if r2, isR := ifs.Body.List[0].(*ast.ReturnStmt); isR && len(r2.Results) == 0 {
 							ok = true
 						}
@@ -940,7 +972,26 @@ func checkDeepClone(w *World) []*OwnOb {
 		}
 		return true
 	})
-	ok := len(calls) == 2 && calls[0] == "yaml.Marshal(v)" && calls[1] == "yaml.Unmarshal(yml, &ret)" && rets == 3 && lastRet == "ret,nil"
+	// names are taken from the function itself, so that renaming a parameter or a local is not an alarm
+	v, yml, ret := "", "", ""
+	if ps := fi.Decl.Type.Params.List; len(ps) == 1 && len(ps[0].Names) == 1 {
+		v = ps[0].Names[0].Name
+	}
+	for _, st := range fi.Decl.Body.List {
+		switch st := st.(type) {
+		case *ast.AssignStmt:
+			if len(st.Rhs) == 1 && len(st.Lhs) == 2 && exprString(st.Rhs[0]) == "yaml.Marshal("+v+")" {
+				yml = exprString(st.Lhs[0])
+			}
+		case *ast.DeclStmt:
+			if gd, isGen := st.Decl.(*ast.GenDecl); isGen && len(gd.Specs) == 1 {
+				if vs, isVal := gd.Specs[0].(*ast.ValueSpec); isVal && len(vs.Names) == 1 && len(vs.Values) == 0 && exprString(vs.Type) == "any" {
+					ret = vs.Names[0].Name
+				}
+			}
+		}
+	}
+	ok := v != "" && yml != "" && ret != "" && len(calls) == 2 && calls[0] == "yaml.Marshal("+v+")" && calls[1] == "yaml.Unmarshal("+yml+", &"+ret+")" && rets == 3 && lastRet == ret+",nil"
 	return []*OwnOb{{Key: key, Kind: "effects", OK: ok, Pos: posStr(w, fi.Decl.Pos()),
 		Why: "deepClone must be yaml.Marshal(v) followed by yaml.Unmarshal(yml, &ret) into a fresh value and return it (found calls " + strings.Join(calls, "; ") + ")"}}
 }
